@@ -1626,6 +1626,14 @@ def replay(ctx, data):
         f, t = out
         return not (lo <= f <= hi and lo <= t <= hi and abs(f - ref_fold(v, lo, hi)) <= 8 * spacing(v, lo, hi)
                     and (not lo <= v <= hi or (f == v and t == v)))
+    if k == "collapse":
+        def call():
+            m = MECH.LaplaceBoundedDomain(epsilon=d["eps"], sensitivity=d["sens"], lower=d["lower"], upper=d["lower"] + d["w"], random_state=int(d["seed"]))
+            m.randomise(d["lower"] + d["w"] / 3)
+            m.lower = m.upper = d["point"]
+            return m.randomise(d["lower"] + d["w"] / 3)
+        kind, out = run_timed(call, 2.0)
+        return kind != "ok" or out != d["point"]
     if k == "snapping-infinite":
         c = Ctx0()
         s_snapping_infinite(c)
